@@ -96,13 +96,18 @@ def analysed_replica(atoms):
 
 def well_conditioned(atoms, tol):
     rep = analysed_replica(atoms)
+    from ase.geometry import cell_to_cellpar
     nums = set()
+    pars = []
     for sp in (tol / 10, tol, tol * 10):
         ds = spglib.get_symmetry_dataset((rep.get_cell().array, rep.get_scaled_positions(), rep.get_atomic_numbers()), symprec=sp)
         if ds is None:
             return False, None
         nums.add((int(ds.number), len(ds.std_types)))
-    return len(nums) == 1, next(iter(nums))[0]
+        pars.append(np.asarray(cell_to_cellpar(np.asarray(ds.std_lattice))))
+    pars = np.array(pars)
+    lattice_stable = np.abs(pars[:, :3] - pars[1, :3]).max() <= 1e-5 * pars[1, :3].max() and np.abs(pars[:, 3:] - pars[1, 3:]).max() <= 1e-3
+    return len(nums) == 1 and bool(lattice_stable), next(iter(nums))[0]
 
 
 def random_layer(rng, tol=0.01, tries=30):
